@@ -385,8 +385,19 @@ impl<'a> Reader for ProtobufReader<'a> {
     fn read_bit_string<C: bitstring::Constraint>(&mut self) -> Result<(Vec<u8>, u64), Self::Error> {
         let mut reader = self.next_range_format_reader(Format::LengthDelimited); // TODO Format::VarInt ??
         let bytes = reader.read_bytes()?;
-        let bits = BitVec::from_vec_with_trailing_bit_len(bytes);
-        Ok(bits.split())
+        // protobuf does not serialize empty values
+        if bytes.is_empty() {
+            return Ok((bytes, 0));
+        }
+        // the trailing bit length is untrusted input
+        if bytes.len() < core::mem::size_of::<u64>() {
+            return Err(std::io::Error::from(std::io::ErrorKind::UnexpectedEof).into());
+        }
+        let (bytes, bit_len) = BitVec::from_vec_with_trailing_bit_len(bytes).split();
+        if bit_len > bytes.len() as u64 * 8 {
+            return Err(std::io::Error::from(std::io::ErrorKind::UnexpectedEof).into());
+        }
+        Ok((bytes, bit_len))
     }
 
     #[inline]
